@@ -332,6 +332,22 @@ func c12Exec(cs c12Case) (*fw.Violation, *harness.Client) {
 		}
 		h.ServerClose(0)
 		shape = "server-not-reading-then-gone"
+	case "stalled-timeout":
+		// as above, but the request timeouts fire while the writes are still held up, and only then does the
+		// server go away: the timer goroutines and the failing write loop meet on the same requests
+		script := c12Script(h.Conns[0].Enc)
+		feed(serialize(script[:cs.K]))
+		h.ServerStall(0)
+		for i := 0; i < 2; i++ {
+			calls = append(calls, h.Go(c12Upload(fmt.Sprint("stalled", i), "/stalled", []byte("upload"), cs.Streamed)))
+		}
+		for i := 0; i < 6; i++ {
+			if !h.FireTimer("client.go") {
+				break
+			}
+		}
+		h.ServerClose(0)
+		shape = "server-not-reading-timeouts-then-gone"
 	}
 	// let every timer that can end a request fire
 	for i := 0; i < 40; i++ {
@@ -468,6 +484,7 @@ func runC12(c *fw.Ctx) {
 			do(c12Case{Family: "close-stalled", K: k, NoTimeout: true, Streamed: st})
 			do(c12Case{Family: "stalled", K: k, Streamed: st})
 			do(c12Case{Family: "stalled", K: k, NoTimeout: true, Streamed: st})
+			do(c12Case{Family: "stalled-timeout", K: k, Streamed: st})
 		}
 	}
 	c.Family("write-faults-and-close")
